@@ -220,7 +220,9 @@ func Universe(depth int) []Kind {
 		}),
 		&rawKind{name: "IntervalMonth", w: 8, mk: func() (proto.Column, func([]byte), func(int) []byte) {
 			c := &proto.ColInterval{Scale: proto.IntervalMonth}
-			return c, func(b []byte) { c.Append(proto.Interval{Scale: proto.IntervalMonth, Value: int64(binary.LittleEndian.Uint64(b))}) },
+			return c, func(b []byte) {
+					c.Append(proto.Interval{Scale: proto.IntervalMonth, Value: int64(binary.LittleEndian.Uint64(b))})
+				},
 				func(i int) []byte { return le(c.Row(i).Value) }
 		}})
 	if depth >= 2 {
